@@ -509,6 +509,32 @@ Section PathModel.
 
   Definition accumulated (ops : list pop) : list cond := accumulated_from [] ops.
 
+  (* every constraint handed to the path or to the fork that created it: a fork condition is a
+     constraint of the forked path from the moment of the fork *)
+  Definition handed (ops : list pop) : list cond :=
+    flat_map (fun o => match o with OAppend c _ => [c] | OBranch c => [c] | OFork c => [c] | _ => [] end) ops.
+
+  (* the pending list after the operations *)
+  Fixpoint pending_after (pend : list cond) (ops : list pop) : list cond :=
+    match ops with
+    | [] => pend
+    | OFork c :: r => pending_after (pend ++ [c]) r
+    | OActivate :: r => pending_after [] r
+    | OExtend _ :: r => pending_after [] r
+    | _ :: r => pending_after pend r
+    end.
+
+  (* no Path(...).extend_path(p) on a p that still waits for activation (extend_path takes
+     `conditions` only: what is pending on p would be lost) *)
+  Fixpoint extends_active_from (pend : list cond) (ops : list pop) : bool :=
+    match ops with
+    | [] => true
+    | OFork c :: r => extends_active_from (pend ++ [c]) r
+    | OActivate :: r => extends_active_from [] r
+    | OExtend _ :: r => match pend with [] => extends_active_from [] r | _ :: _ => false end
+    | _ :: r => extends_active_from pend r
+    end.
+
   (* what the solvers handed to Path(...) already held: the first one, then one per extension *)
   Definition bases (s0 : list cond) (ops : list pop) : list cond :=
     (s0 ++ flat_map (fun o => match o with OExtend s1 => s1 | _ => [] end) ops)%list.
